@@ -181,7 +181,8 @@ def selftests(ctx, sc, mc, adm):
             probes.append(p)
             break
     for t in mc:
-        if t['cfg'].get('wrap') == 'plain' and any(s['a'] == 'Send' for s in t['steps']):
+        if t['cfg'].get('wrap') == 'plain' and any(s['a'] == 'Send' for s in t['steps']) and \
+                all(0 < s['args'][1] <= t['cfg']['Cap'][str(s['args'][0])] for s in t['steps']):
             p = copy.deepcopy(t)
             p['cfg']['selftest'] = 'flip-received'
             p['id'] = 'selftest-mc-content'
@@ -208,29 +209,37 @@ def selftests(ctx, sc, mc, adm):
 
 
 def confirm_timeouts(ctx, rep, traces):
-    """A failure that is a timeout is only kept when the same behaviour times out again, twice; otherwise it is
-    reported as inconclusive (a slow machine must never turn into a verdict)."""
+    """A failure that is a timeout is only kept when the same behaviour times out again, twice, when run alone;
+    otherwise it is reported as inconclusive (a slow machine must never turn into a verdict).  One behaviour per
+    failure key is re-run; the others with that key share its fate."""
     keep = []
+    verdict = {}
     for f in (rep.get('failures') or []):
         if f.get('kind') != 'timeout':
             keep.append(f)
             continue
-        ti = f.get('trace', 0)
-        again = 0
-        for _ in range(2):
-            r2 = run_p2p(ctx, [traces[ti]])
-            if any(g.get('kind') == 'timeout' and g.get('key') == f.get('key') for g in (r2.get('failures') or [])):
-                again += 1
-        if again == 2 and f.get('property'):
-            f['detail'] = (f.get('detail') or '') + ' [timed out again in 2 of 2 isolated re-runs]'
-            keep.append(f)
-        else:
-            f['property'] = False
-            f['detail'] = (f.get('detail') or '') + ' [re-run alone: timed out %d of 2 times]' % again
-            if again:
+        key = f.get('key')
+        if key not in verdict:
+            ti = f.get('trace', 0)
+            again = 0
+            for _ in range(2):
+                r2 = run_p2p(ctx, [traces[ti]])
+                if any(g.get('kind') == 'timeout' and g.get('key') == key for g in (r2.get('failures') or [])):
+                    again += 1
+                else:
+                    break
+            verdict[key] = again
+            ctx.log('timeout %s (%s) re-run alone: timed out %d of 2 times' % (key, f.get('trace_id'), again))
+            if again == 2 and f.get('property'):
+                f['detail'] = (f.get('detail') or '') + ' [timed out again in 2 of 2 isolated re-runs]'
+                keep.append(f)
+            elif again:
+                f['property'] = False
+                f['detail'] = (f.get('detail') or '') + ' [re-run alone: timed out %d of 2 times]' % again
                 keep.append(f)
             else:
-                ctx.notes.append('timeout that did not reproduce: %s %s' % (f.get('key'), f.get('trace_id')))
+                ctx.notes.append('timeout that did not reproduce: %s %s' % (key, f.get('trace_id')))
+                ctx.inconclusive.append('timeout that did not reproduce when the behaviour was run alone: %s' % key)
     rep['failures'] = keep
 
 
@@ -258,10 +267,10 @@ def run(ctx, replay=None):
                  ('SecretConn/t', 'MC_SecretConn.tla', 'MC_SecretConn_t.cfg', dict(timeout=3000)),
                  ('MConn/t', 'MC_MConn.tla', 'MC_MConn_t.cfg', dict(timeout=3000)),
                  ('Admission/t', 'MC_Admission.tla', 'MC_Admission_t.cfg', dict(timeout=3000))]
-    jobs += [('SecretConn/sim', 'MC_SecretConn.tla', 'MC_SecretConn_sim.cfg', dict(sim=(120 if quick else 1200, 30 if quick else 45), timeout=1800)),
-             ('MConn/sim', 'MC_MConn.tla', 'MC_MConn_q.cfg' if quick else 'MC_MConn_t.cfg', dict(sim=(700 if quick else 4000, 40), timeout=1800))]
+    jobs += [('SecretConn/sim', 'MC_SecretConn.tla', 'MC_SecretConn_sim.cfg', dict(sim=(120 if quick else 800, 30 if quick else 45), timeout=1800)),
+             ('MConn/sim', 'MC_MConn.tla', 'MC_MConn_q.cfg' if quick else 'MC_MConn_t.cfg', dict(sim=(700 if quick else 3000, 40), timeout=1800))]
     if not quick:
-        jobs.append(('Admission/sim', 'MC_Admission.tla', 'MC_Admission_t.cfg', dict(sim=(250, 160), timeout=1800)))
+        jobs.append(('Admission/sim', 'MC_Admission.tla', 'MC_Admission_t.cfg', dict(sim=(150, 160), timeout=1800)))
     if ONLY:
         jobs = [j for j in jobs if j[0].startswith(SPECNAME[ONLY] + '/')]
         ctx.inconclusive.append('VERIF_C20_ONLY=%s: partial run' % ONLY)
@@ -297,7 +306,7 @@ def run(ctx, replay=None):
         mc.append(t)
     ctx.log('mconn workloads: %d distinct of %d simulated' % (len(mc), len(sims)))
     ctx.rng.shuffle(mc)
-    mc = mc[:150 if quick else 900]
+    mc = mc[:150 if quick else 600]
     tampers = ['flip', 'drop', 'dup']
     for k, t in enumerate(mc):
         mode = k % 5
